@@ -122,9 +122,39 @@ def _run_chunk(args):
         n=0, nontrivial=0, sigs=set(), counters={}, vtime=0.0, violations=[], samples=[],
         harness=[], declines=0,
     )
+    import signal
+
+    class _RunTooSlow(BaseException):
+        pass
+
+    def _on_alarm(signum, frame):
+        raise _RunTooSlow()
+
+    run_wall = int(getattr(mod, "RUN_WALL", 240))
+    try:
+        signal.signal(signal.SIGALRM, _on_alarm)
+    except (ValueError, OSError):
+        run_wall = 0
     for idx in indices:
         try:
-            case, res = run_one(mod, verif_seed, idx, tier)
+            if run_wall:
+                signal.alarm(run_wall)
+            try:
+                case, res = run_one(mod, verif_seed, idx, tier)
+            finally:
+                if run_wall:
+                    signal.alarm(0)
+        except _RunTooSlow:
+            # a workload that is merely expensive in real time (not a hang: hangs are virtual-time states):
+            # counted, never reported as holding or as violating
+            out["counters"]["runs_abandoned_wall_clock"] = out["counters"].get("runs_abandoned_wall_clock", 0) + 1
+            try:
+                from sim.loop import quiesce_zarr_loop
+
+                quiesce_zarr_loop(timeout=60)
+            except BaseException:  # noqa: BLE001
+                pass
+            continue
         except BaseException as e:  # noqa: BLE001
             out["harness"].append(
                 dict(index=idx, error=repr(e), tb=traceback.format_exc()[-4000:])
